@@ -19,6 +19,14 @@ pub mod crossbeam_channel {
             ensures msg(sid(self), old(tok).n) == t, final(tok).n == old(tok).n + 1
         { unimplemented!() }
     }
+    pub struct TrySendError<T>(pub T);
+    impl Sender<BddNode> {
+        // non-blocking send: may fail (bounded channel full / disconnected); nothing is enqueued then
+        #[verifier::external_body]
+        pub fn try_send(&self, t: BddNode, Tracked(tok): Tracked<&mut Tok>) -> (r: Result<(), TrySendError<BddNode>>)
+            ensures r.is_ok() ==> msg(sid(self), old(tok).n) == t && final(tok).n == old(tok).n + 1, r.is_err() ==> final(tok).n == old(tok).n
+        { unimplemented!() }
+    }
     impl Receiver<BddNode> {
         #[verifier::external_body]
         pub fn try_recv(&self, Tracked(tok): Tracked<&mut Tok>) -> (r: Result<BddNode, TryRecvError>)
